@@ -22,6 +22,17 @@ Programs come from three sources
 
 Maps are real kernel maps (the program refers to them by descriptor); every
 descriptor obtained while a program is built is recorded and closed again.
+
+Oracle: BPF_PROG_LOAD accepts.  A program the generator refuses (any
+exception while it is written or assembled) is counted, never a violation; a
+program outside the statement's side conditions is loaded and counted, not
+judged.  A rejected program is attributed to a documented defect only when
+its shape has the defect's structural trigger, the verifier's complaint is
+one documented for it AND the same program generated with exactly that
+defect repaired (a wrapper around the one library function concerned) loads;
+see the section "known findings".  If bpf() is unavailable nothing is judged
+(coverage says kernel_available: false); the mini-verifier fallback of the
+design is not implemented.
 """
 import contextlib
 import hashlib
